@@ -67,3 +67,22 @@ pub fn run(arg: &str) -> (bool, String) {
     }
     (false, format!("{checked} names derived from {total} rules agree with the list"))
 }
+
+/// The rules of the .dat as Rust source for the verified table checker of unit psl: arg = "<path of the .dat>|<output file>".
+/// Every rule becomes (kind, labels right to left) with kind 0 = normal, 1 = wildcard (`*.` removed), 2 = exception (`!` removed);
+/// names are in their ASCII (punycode) form; duplicates removed, sorted.
+pub fn emit_rules(arg: &str) -> (bool, String) {
+    let (dat, out) = arg.split_once('|').unwrap_or((arg, "/dev/null"));
+    let rules = match parse(dat) { Ok(r) => r, Err(e) => return (false, e) };
+    let mut all: Vec<(u8, String)> = rules.exact.iter().map(|r| (0u8, r.clone())).chain(rules.wild.iter().map(|r| (1u8, r.clone()))).chain(rules.exc.iter().map(|r| (2u8, r.clone()))).collect();
+    all.sort();
+    let mut src = String::from("// generated on this run from public_suffix_list.dat of /repo (replay crate entry psl-rules)\n");
+    src.push_str("pub struct DatRules;\nimpl RuleList for DatRules {\n    #[verifier::external_body]\n    const RULES: &'static [(u8, &'static [&'static str])] = &[\n");
+    for (k, name) in &all {
+        let labels: Vec<String> = name.rsplit('.').map(|l| format!("{l:?}")).collect();
+        src.push_str(&format!("        ({k}, &[{}]),\n", labels.join(", ")));
+    }
+    src.push_str("    ];\n}\n");
+    if let Err(e) = std::fs::write(out, src) { return (false, format!("cannot write {out}: {e}")); }
+    (false, format!("{} rules written", all.len()))
+}
